@@ -187,6 +187,14 @@ fn main() {
     for n in [11usize, 12] {
         lists.push((0..n).map(|i| CapSpec { id: 9, body: (0..14).map(|b| (b * 16 + i) as u8).collect() }).collect());
     }
+    // Vendor-specific capabilities whose own length byte is truthful (16: the last one of twelve
+    // ends exactly at the end of configuration space), too large (0xff) or zero: the walk yields
+    // list elements, whatever they say about themselves.
+    for n in [11usize, 12] {
+        for lenb in [16u8, 0xff, 0] {
+            lists.push((0..n).map(|i| CapSpec { id: 9, body: std::iter::once(lenb).chain((1..14).map(|b| (b * 16 + i) as u8)).collect() }).collect());
+        }
+    }
     // Every capability id 0..=255 (0 is the PCIe null capability, a list element like any other;
     // 0xff is not special either) as the first, a middle and the last entry of a four-entry list.
     for id in 0..=255u8 {
@@ -227,7 +235,7 @@ fn main() {
             }
         }
     }
-    c.add_sweep(&format!("capabilities: all lists up to length {} over 8 shapes, long lists of 5..48 entries, every capability id 0..=255 at every position of a four-entry list, x 2 placements; 40 lists x 16 further status-register contents; 200 chains without the capabilities-list status bit (no list)", maxlen), ev, lists.len() as u64, true, J::obj());
+    c.add_sweep(&format!("capabilities: all lists up to length {} over 8 shapes, long lists of 5..48 entries, vendor capabilities up to the last byte of configuration space with truthful, oversized and zero length bytes, every capability id 0..=255 at every position of a four-entry list, x 2 placements; 40 lists x 16 further status-register contents; 200 chains without the capabilities-list status bit (no list)", maxlen), ev, lists.len() as u64, true, J::obj());
     c.add_sample(J::obj().set("case", J::s("bar_info(slot 2) on Mem64{size 2^33, prefetchable} at 0x8_0000_0000 with command 0x0407 -> Memory{Width64, prefetchable, address, size}; command and BARs restored; sizing writes with decode off")));
     c.finish();
 }
